@@ -304,8 +304,38 @@ let handle_entry words =
     Printf.sprintf "%s %s %d" (show (Entry.seen c d v)) (show (Entry.seen_xtype c d v)) (if Entry.lname_applies c d v then 1 else 0)
   | _ -> "badcase"
 
+(* ---- regex ci ast subjects : ast in prefix form, tokens separated by ','.
+   C cat(2) A alt(2) S star(1) P plus(1) O opt(1) I<lo>.<hi> interval(1) c<n> char d any k<n.n..> class K<n.n..> negated class E eps ---- *)
+let handle_regex words =
+  match words with
+  | [ci; ast; subjects] ->
+    let ci = (ci = "1") in
+    let fold c = if ci && c >= 65 && c <= 90 then c + 32 else c in
+    let toks = ref (split_on ',' ast) in
+    let next () = match !toks with t :: r -> toks := r; t | [] -> failwith "ast" in
+    let ints s = Stdlib.List.map int_of_string (split_on '.' s) in
+    let rec parse () =
+      let t = next () in
+      let arg = String.sub t 1 (String.length t - 1) in
+      match t.[0] with
+      | 'C' -> let a = parse () in let b = parse () in Regex.Cat (a, b)
+      | 'A' -> let a = parse () in let b = parse () in Regex.Alt (a, b)
+      | 'S' -> Regex.Star (parse ())
+      | 'P' -> Regex.coq_Plus (parse ())
+      | 'O' -> Regex.coq_Opt (parse ())
+      | 'I' -> (match ints arg with [lo; hi] -> Regex.coq_Interval (nat_of_int lo) (nat_of_int hi) (parse ()) | _ -> failwith "interval")
+      | 'c' -> let x = fold (int_of_string arg) in Regex.Chr (fun c -> fold (int_of_nat c) = x)
+      | 'd' -> Regex.Chr (fun _ -> true)
+      | 'k' -> let l = Stdlib.List.map fold (ints arg) in Regex.Chr (fun c -> Stdlib.List.mem (fold (int_of_nat c)) l)
+      | 'K' -> let l = Stdlib.List.map fold (ints arg) in Regex.Chr (fun c -> not (Stdlib.List.mem (fold (int_of_nat c)) l))
+      | 'E' -> Regex.Eps
+      | _ -> failwith "ast" in
+    let r = parse () in
+    String.concat "" (Stdlib.List.map (fun s -> if Regex.matches r (cps s) then "1" else "0") (list_of subjects))
+  | _ -> "badcase"
+
 let handlers : (string * (string list -> string)) list ref =
-  ref [ ("xread", handle_xread); ("xargs", handle_xargs); ("xrepl", handle_xrepl); ("xnorm", handle_xnorm); ("walk", handle_walk); ("expr", handle_expr); ("num", handle_num); ("glob", handle_glob); ("paths", handle_paths); ("delete", handle_delete); ("execm", handle_execm); ("limits", handle_limits); ("entry", handle_entry) ]
+  ref [ ("xread", handle_xread); ("xargs", handle_xargs); ("xrepl", handle_xrepl); ("xnorm", handle_xnorm); ("walk", handle_walk); ("expr", handle_expr); ("num", handle_num); ("glob", handle_glob); ("paths", handle_paths); ("delete", handle_delete); ("execm", handle_execm); ("limits", handle_limits); ("entry", handle_entry); ("regex", handle_regex) ]
 
 let () =
   try while true do
